@@ -252,7 +252,13 @@ def generate_dependent_dispatch(tup, handlers, next_call, slf, name, err, nerr):
 
     body = []
     if keyexpr:
-        body.append(f"HANDLER = {ndb[keyed]}.get({keyexpr}, FALLTHROUGH)")
+        body.append("try:")
+        body.append(f"    HANDLER = {ndb[keyed]}.get({keyexpr}, FALLTHROUGH)")
+        body.append("except TypeError:")
+        body.append("    # an unhashable argument: compare it with the keys one by one")
+        body.append(
+            f"    HANDLER = next((h for k, h in {ndb[keyed]}.items() if k == {keyexpr}), FALLTHROUGH)"
+        )
         body.append(f"return HANDLER({slf}{argcall})")
 
     elif exclusive:
